@@ -73,6 +73,8 @@ def invalid_sources(seed, n):
         else:
             s = s + '\nx = 1 +\n'
         yield {'shape': 'invalid', 'src': s}
+    for t in ['\ufeffx = "a\ufeffb"\nprint(x)\n', '\ufeff# comment\ny = 1\n', 'x = 1\n\ufeffy = 2\n']:
+        yield {'shape': 'invalid-text-bom', 'src': t}
     for b in [b'x = 1\x00\n', b'# coding: no-such-codec\nx = 1\n', b'\xff\xfex = 1\n', b'x = "\xc8"\n', b'# coding: ascii\nx = "\xc3\xa9"\n',
               b'\xef\xbb\xbf# coding: latin-1\nx = 1\n', b'def f():\n\treturn 1\n        return 2\n']:
         yield {'shape': 'invalid-bytes', 'src_b64': base64.b64encode(b).decode('ascii')}
